@@ -375,6 +375,12 @@ func (fi *FuncInfo) argWrapper() func(reflect.Value) any {
 	strict := fi.strictFields && fi.Argument != nil && !fi.Argument.Implements(strictType)
 	names := fi.posNames // capture so the wrapper does not pin fi
 	array := len(names) != 0 && fi.allowArray
+	if array && !strict && fi.Argument != nil &&
+		(fi.Argument.Implements(strictType) || reflect.PointerTo(fi.Argument).Implements(strictType)) {
+		// The array wrapper hides the argument's own DisallowUnknownFields
+		// method from UnmarshalParams, so enforce strictness here.
+		strict = true
+	}
 	switch {
 	case strict && array:
 		return func(v reflect.Value) any {
